@@ -105,6 +105,9 @@ def lex_x():
         {'id': 'a-s4', 'external': True},
         {'id': 'x-s1', 'ili': 'i4', 'partOfSpeech': 'n', 'meta': None,
          'lexfile': 'noun.x',
+         # a definition for an existing ILI (validate's W304): kept only while the ILI is
+         # merely presupposed; f3 lists i4 without any definition
+         'ili_definition': {'text': 'what x says i4 is', 'meta': None},
          'relations': [{'relType': 'hypernym', 'target': 'a-s1', 'meta': None}]},
     ]
     return L
@@ -148,6 +151,8 @@ def lex_u():
                      'senses': [{'id': 'u-w1-1', 'synset': 'u-s1', 'meta': None}]}]
     L['synsets'] = [{'id': 'u-s1', 'ili': 'i2', 'partOfSpeech': 'n', 'meta': None,
                      'lexfile': 'nom.animal',
+                     # f1 lists i2 with an empty definition, f3 with none
+                     'ili_definition': {'text': 'what u says i2 is', 'meta': None},
                      'relations': [{'relType': 'weird_type', 'target': 'u-s2', 'meta': None}]},
                     {'id': 'u-s2', 'ili': 'in', 'partOfSpeech': 'n', 'meta': None}]
     return L
